@@ -265,4 +265,48 @@ def ValidPre (env : Env) (pre : Bytes) : Prop :=
      (env.authOn = true ∧ ∃ (v : UInt8) (u p : Bytes), u.length < 256 ∧ p.length < 256 ∧ env.valid u p = true ∧
         pre = 5 :: UInt8.ofNat ms.length :: ms ++ (v :: UInt8.ofNat u.length :: u ++ UInt8.ofNat p.length :: p)))
 
+/-! ### vocabulary of the theorem statements -/
+
+/-- RFC 1928 greeting / RFC 1929 username-password message -/
+def greetMsg (ms : Bytes) : Bytes := 5 :: UInt8.ofNat ms.length :: ms
+def authMsg (v : UInt8) (u p : Bytes) : Bytes := v :: UInt8.ofNat u.length :: u ++ UInt8.ofNat p.length :: p
+
+/-- the connect stage once destination (a, ad, p) is known and `t` is left in the buffer -/
+def connResult (env : Env) (a : UInt8) (ad : Bytes) (p : Nat) (t : Bytes) : SState × List Out :=
+  if env.eager then
+    if env.connOk then (.relay, [.setAddr a ad p, .openServer] ++ relayStart t)
+    else (.done, [.setAddr a ad p, .openServer, .send (reply 4), .close])
+  else (.relay, [.setAddr a ad p] ++ relayStart t)
+
+/-- replies sent before the connect stage on the accepting path -/
+def preSends (env : Env) : List Bytes := if env.authOn then [[5, 2], [1, 0]] else [[5, 0]]
+
+/-- every reply the server can ever send -/
+def WellFormedReply (b : Bytes) : Prop :=
+  b = [5, 0] ∨ b = [5, 2] ∨ b = [1, 0] ∨ b = [1, 1] ∨ ∃ rep : UInt8, rep ∈ [0, 4, 7, 8, 0xFF] ∧ b = reply rep
+
+/-- `feed` without the empty-segment guard: literally `self.buf += data; yield from self.state()` -/
+def feedRaw (env : Env) (s : SState) (d : Bytes) : SState × List Out :=
+  match s with
+  | .greet buf => syncGreet env (buf ++ d)
+  | .auth buf => syncAuth env (buf ++ d)
+  | .connect buf => syncConnect env (buf ++ d)
+  | .relay => (.relay, d.map .child)
+  | .done => (.done, [])
+
+/-- one client event on the synchronous machine -/
+def syncStep (env : Env) (s : SState) : In → SState × List Out
+  | .data d => feed env s d
+  | .close => (s, onClose s)
+
+def syncAll (env : Env) (s : SState) : List In → SState × List Out
+  | [] => (s, [])
+  | e :: es => ((syncAll env (syncStep env s e).1 es).1, (syncStep env s e).2 ++ (syncAll env (syncStep env s e).1 es).2)
+
+/-- the client events of a schedule, completions dropped -/
+def insOf : List Act → List In
+  | [] => []
+  | .ev e :: r => e :: insOf r
+  | .complete :: r => insOf r
+
 end MitmVerif.C21
